@@ -33,6 +33,8 @@ KINDS = [
     ('item_del', 'DELETE', '/item/{nm}?id={i}', b''),
     ('doc', 'GET', '/doc?id={i}', b''),
     ('docv2', 'GET', '/doc?v=2&id={i}', b''),
+    ('go', 'GET', '/go?id={i}', b''),
+    ('cart', 'GET', '/cart?add={nm}{i}&id={i}', b''),
     ('boom', 'GET', '/boom?id={i}', b''),
     ('redir', 'GET', '/dir?id={i}', b''),
     ('dir', 'GET', '/dir/?id={i}', b''),
@@ -74,6 +76,8 @@ def do_request(app, req):
     headers = {}
     if req.get('accept'):
         headers['Accept'] = req['accept']
+    if req['kind'] == 'cart':
+        headers['Cookie'] = threads_app.cart_cookie(['apple'])       # every client of this kind holds an EQUAL cart
     env = make_environ(req['method'], req['target'], headers=headers, body=req.get('body', '').encode())
     env['sim.ids'] = []
     env['sim.guids'] = []
@@ -143,6 +147,11 @@ def predict(cfg, r):
         return (200, 'iput|%s|%s|%d' % (nm, tok, i), None, None)
     if k == 'item_del':
         return (405, None, 'GET,HEAD,POST,PUT', None)
+    if k == 'go':
+        return (302, None, None, 'http://sim.test/hi/there')
+    if k == 'cart':
+        add = r['target'].split('add=')[1].split('&')[0]
+        return (200, 'cart|apple,%s|%d' % (add, i), None, None)
     if k == 'doc':
         return (200, 'doc|%s|%d' % (tok, i), None, None)
     if k == 'docv2':
@@ -543,8 +552,10 @@ class C12(Check):
                 if p is None or s['escaped']:
                     continue
                 res.probe('predicted-response-compared')
+                stamp = s['headers'].get('x-sim-tok')
                 if (s['code'] != p[0] or (p[1] is not None and s['body'] != p[1]) or (p[2] is not None and s['headers'].get('allow') != p[2])
-                        or (p[3] is not None and s['headers'].get('location') != p[3])):
+                        or (p[3] is not None and s['headers'].get('location') != p[3])
+                        or (stamp is not None and stamp != 'tok-%d' % r['id'])):
                     res.violate('C12/%s/differs-from-source-prediction:%s' % (r['kind'], what),
                                 '%s (%s %s) served %s: status %s body %r Allow %r Location %r; the application source says %r\n history: %s'
                                 % (name, r['method'], r['target'], what, s['code'], s['body'][:80], s['headers'].get('allow'), s['headers'].get('location'), p,
